@@ -39,6 +39,12 @@ CLAIMS = {
     'C07': ('path evaluation of send_maybe under balance (socket list shape, candidate filter), of the balanced branch of recv_once and of the prefetch guard',
             'Decides one-socket-per-balanced-publish, one-source-at-a-time at the rejoin, no prefetch at the first hop, the balanced mark in the envelope, HELLO to all outputs.',
             'DESIGN.md §2 C07', 'Not decided: strict ordering of the rejoined stream for unequal worker speeds.'),
+    'C08': ('exception-structure evaluation of Filter.run (try/except/finally semantics with subclass matching) for every (lifecycle site x exception kind x propagate policy x loop policy) scenario, incl. exit() inlined from each stage; constant folding of the policy tables; scoping-rule lint for calls of module objects; acquire/release pairing',
+            'Decides the complete outcome table of run() for a fault or exit() injected at every lifecycle call site: shutdown/fini/stop_logging counts, stop event, exit message kind and policy bit, return-vs-raise; plus policy bit tables, exit() always raising, stop-event polling and the exit_after test in loop_once, teardown pairing. This quantifier (crash points x policies) is finite and is covered exhaustively.',
+            'DESIGN.md §3 C08', 'Not decided: delivery of exit messages over the network; exit_after parsing of every textual form.'),
+    'C18': ('the same scenario evaluation of Filter.run with lineage emissions as the event alphabet (count and kind of terminal events per scenario), store enumeration for run_id',
+            'Decides, for every way a run can end, how many terminal lineage events the code emits and of which kind, that START comes first and that one run id is used. On the pinned tree every scenario emits several terminal events (genuine defect D8, seven keyed emission sites recorded as known findings).',
+            'DESIGN.md §3 C18', 'Not decided: heartbeat timing relative to the run length; the asynchronous COMPLETE of the heartbeat thread is modelled as emitted once after the first stop request.'),
 }
 
 NOT_APPLICABLE = {
